@@ -73,6 +73,29 @@ func checkC01(p *Prog, r *Report) {
 		want := eq(p.F(segT, "segment", "sn"), tFld(base, fRcvNxt))
 		construct := "rcv_queue.Push(" + exprString(s.Call.Args[0]) + ") in " + s.Fn.Name
 		okG := fs.Holds(want)
+		rootGuard := ""
+		if !okG && segT.Op == "var" {
+			// peek-then-pop idiom: seg := heap.Pop(H) where H's root was tested: H.segments[0].sn == rcv_nxt
+			for _, as := range p.Assignments(s.Fn, segT.Obj.(*types.Var)) {
+				if as.Rhs == nil {
+					continue
+				}
+				t := p.Term(as.Rhs)
+				for t.Op == "typeassert" || t.Op == "conv" {
+					t = t.Args[0]
+				}
+				if t.Op == "call" && t.Obj != nil && isExtFunc(t.Obj.(*types.Func), "container/heap", "", "Pop") && len(t.Args) == 1 {
+					hp := t.Args[0]
+					if st := sliceElemStructOfHeap(p, hp); st != nil {
+						root := tFld(mk("idx", tFld(hp, st), tConst(0)), p.Field("segment", "sn"))
+						if p.FactsOf(s.Fn).AtNode(as.Node).Holds(eq(root, tFld(base, fRcvNxt))) {
+							okG = true
+							rootGuard = pretty(eq(tFld(base, fRcvNxt), root).Key())
+						}
+					}
+				}
+			}
+		}
 		// exactly one rcv_nxt++ after it in the same block
 		c := p.CFG(s.Fn)
 		pt, _ := c.PointOf(s.Call)
@@ -94,15 +117,22 @@ func checkC01(p *Prog, r *Report) {
 			r.ok("C01.S2", s.Fn.Name, p.Pos(s.Call), construct, "under seg.sn == rcv_nxt, followed by exactly one rcv_nxt++")
 		}
 		// guard of the enclosing if (for the sibling comparison)
+		// the sibling comparison concerns the in-order test only (the window part is C04's)
+		found := false
 		for _, ct := range c.DominatingConds(pt) {
-			if termHasField(ct, fRcvNxt) && ct.Contains(segT) {
-				// normalise the loop variable away
-				k := pretty(ct.Key())
-				if segT.Op == "var" {
-					k = strings.ReplaceAll(k, segT.Obj.Name()+".", "SEG.")
+			for _, a := range Conjuncts(ct) {
+				if termHasField(a, fRcvNxt) && a.Contains(segT) {
+					k := pretty(a.Key())
+					if segT.Op == "var" {
+						k = strings.ReplaceAll(k, segT.Obj.Name()+".", "SEG.")
+					}
+					guards = append(guards, k)
+					found = true
 				}
-				guards = append(guards, k)
 			}
+		}
+		if !found && rootGuard != "" {
+			guards = append(guards, "==(kcp.rcv_nxt,SEG.sn)")
 		}
 	}
 	for _, st := range p.FieldStores(fRcvNxt) {
@@ -438,7 +468,8 @@ func checkC01(p *Prog, r *Report) {
 					}
 					f := p.Callee(call)
 					switch {
-					case p.BuiltinName(call) == "len":
+					case p.IsConversion(call):
+					case p.BuiltinName(call) == "len", p.BuiltinName(call) == "cap", p.BuiltinName(call) == "min", p.BuiltinName(call) == "max":
 					case f != nil && f.Name() == "Uint16":
 					case f == p.Method("bufferPool", "Put"):
 					case f == p.Method("KCP", "Input"):
@@ -780,4 +811,36 @@ func stripConvs(t *Term) *Term {
 		n.Args[i] = stripConvs(a)
 	}
 	return &n
+}
+
+// sliceElemStructOfHeap: for a heap value term of a package type whose
+// underlying struct has exactly one slice-of-segment field, that field.
+func sliceElemStructOfHeap(p *Prog, hp *Term) *types.Var {
+	var t types.Type
+	switch {
+	case hp.Op == "fld" || hp.Op == "var":
+		if v, ok := hp.Obj.(*types.Var); ok {
+			t = v.Type()
+		}
+	}
+	if t == nil {
+		return nil
+	}
+	if pt, ok := t.Underlying().(*types.Pointer); ok {
+		t = pt.Elem()
+	}
+	st := structOf(t.Underlying())
+	if st == nil {
+		return nil
+	}
+	var out *types.Var
+	for i := 0; i < st.NumFields(); i++ {
+		if sl, ok := st.Field(i).Type().Underlying().(*types.Slice); ok && namedOf(sl.Elem()) == p.Named("segment") {
+			if out != nil {
+				return nil
+			}
+			out = st.Field(i)
+		}
+	}
+	return out
 }
